@@ -126,3 +126,26 @@ CLAIMS["C07"] = dict(
           "numerical property and is NOT decided."),
     technique="producer/consumer exhaustiveness table, sibling cross-check of three kernels, guard/store agreement",
     design_ref="DESIGN.md section 3, C07 (R07a-R07b)")
+
+CLAIMS["C13"] = dict(
+    text=("Decides that the kind decision is a function of the residue-letter histogram only and is biased the right way on "
+          "nucleotide letters: the effect summary of detect_alphabet reads only letter_freq/quiet; every writer of "
+          "letter_freq adds or zeroes; the two letter models are reconstructed from their literals and constant log() "
+          "expressions: the nucleotide set holds A C G T U N in both cases, both sets are case-closed, array sizes and loop "
+          "ranges equal the literal lengths; the voting filter, evaluated for all 128 characters, lets exactly the letters "
+          "vote; every nucleotide letter weighs strictly more under the nucleotide model (so all-nucleotide input is "
+          "nucleotide for any gaps/order/names); the larger total selects the matching biotype; the kind gates the type."),
+    note=("The quantitative protein premise (a quarter protein-only letters) is an inequality between run-time weighted sums "
+          "and is NOT decided (its constant margins are reported). Assumes C-locale isalpha."),
+    technique="effect summary (read set), constant evaluation of the letter models, finite evaluation of the voting filter",
+    design_ref="DESIGN.md section 3, C13 (R13a-R13c)")
+
+CLAIMS["C14"] = dict(
+    text=("Decides non-interference of case and T/U spelling: among everything kalign_run runs before finalise_alignment "
+          "only the letter-to-code function reads msa_seq.seq and the letter only indexes the alphabet table; the tables of "
+          "all alphabets kalign_run selects are computed by constant evaluation of create_alphabet (loops unrolled, calls "
+          "inlined) and compared entry by entry: every upper-case letter and its lower-case twin share a code, only letters "
+          "have codes, T/U/t/u share one code and A,C,G,T are distinct; the kind decision's nucleotide set contains T,U,t,u."),
+    note="Assumes C-locale isalpha and that readers keep exactly the isalpha characters (decided under C04).",
+    technique="who-may-read over the call graph + constant evaluation of the alphabet constructors",
+    design_ref="DESIGN.md section 3, C14 (R14a-R14c)")
